@@ -253,8 +253,8 @@ def fwD : CfgData where
     { id := 21, scope := some { read := [4], modified := [4], deleted := [], bound := [4], globals := [], nonlocals := [], params := [], annotations := [] }, isForIter := false, forTargets := [], isFnDef := false, fnsIn := some [6] },
     { id := 26, scope := some { read := [4, 5], modified := [], deleted := [], bound := [], globals := [], nonlocals := [], params := [], annotations := [] }, isForIter := false, forTargets := [], isFnDef := false, fnsIn := some [6] }]
   fns := [
-    { id := 1, parent := 0, isLambda := false, read := [3, 4, 5, 6], bound := [0, 1, 2, 3, 4], nonlocals := [] },
-    { id := 6, parent := 1, isLambda := false, read := [4, 5], bound := [4], nonlocals := [4] }]
+    { id := 1, parent := 0, isLambda := false, read := [3, 4, 5, 6], bound := [0, 1, 2, 3, 4], nonlocals := [], globals := [] },
+    { id := 6, parent := 1, isLambda := false, read := [4, 5], bound := [4], nonlocals := [4], globals := [] }]
 def fwV : List Nat := [2, 6, 15, 19, 21, 26]
 def fwIN : St Def := solAt [(2, []), (6, [(0, 2), (1, 2), (2, 2)]), (15, [(0, 2), (1, 2), (2, 2), (3, 6)]), (19, [(0, 2), (1, 2), (2, 2), (3, 6)]), (21, [(0, 2), (1, 2), (2, 2), (3, 6)]), (26, [(0, 2), (1, 2), (2, 2), (3, 6), (4, 21)])]
 def fwOUT : St Def := solAt [(2, [(0, 2), (1, 2), (2, 2)]), (6, [(0, 2), (1, 2), (2, 2), (3, 6)]), (15, [(0, 2), (1, 2), (2, 2), (3, 6)]), (19, [(0, 2), (1, 2), (2, 2), (3, 6)]), (21, [(0, 2), (1, 2), (2, 2), (3, 6), (4, 21)]), (26, [(0, 2), (1, 2), (2, 2), (3, 6), (4, 21)])]
@@ -311,8 +311,8 @@ def ndD : CfgData where
     { id := 17, scope := some { read := [4], modified := [6], deleted := [], bound := [6], globals := [], nonlocals := [], params := [], annotations := [] }, isForIter := false, forTargets := [], isFnDef := false, fnsIn := some [11] },
     { id := 21, scope := some { read := [6, 7], modified := [], deleted := [], bound := [], globals := [], nonlocals := [], params := [], annotations := [] }, isForIter := false, forTargets := [], isFnDef := false, fnsIn := some [11] }]
   fns := [
-    { id := 1, parent := 0, isLambda := false, read := [0, 1, 3, 4, 6, 7], bound := [0, 1, 2, 3, 4, 5, 6], nonlocals := [] },
-    { id := 11, parent := 1, isLambda := false, read := [5], bound := [5], nonlocals := [] }]
+    { id := 1, parent := 0, isLambda := false, read := [0, 1, 3, 4, 6, 7], bound := [0, 1, 2, 3, 4, 5, 6], nonlocals := [], globals := [] },
+    { id := 11, parent := 1, isLambda := false, read := [5], bound := [5], nonlocals := [], globals := [] }]
 def ndV : List Nat := [2, 6, 11, 17, 21]
 def ndIN : St Def := solAt [(2, []), (6, [(0, 2), (1, 2), (2, 2)]), (11, [(0, 2), (1, 2), (2, 2), (3, 6)]), (17, [(0, 2), (1, 2), (2, 2), (3, 6), (4, 11), (5, 11)]), (21, [(0, 2), (1, 2), (2, 2), (3, 6), (4, 11), (5, 11), (6, 17)])]
 def ndOUT : St Def := solAt [(2, [(0, 2), (1, 2), (2, 2)]), (6, [(0, 2), (1, 2), (2, 2), (3, 6)]), (11, [(0, 2), (1, 2), (2, 2), (3, 6), (4, 11), (5, 11)]), (17, [(0, 2), (1, 2), (2, 2), (3, 6), (4, 11), (5, 11), (6, 17)]), (21, [(0, 2), (1, 2), (2, 2), (3, 6), (4, 11), (5, 11), (6, 17)])]
